@@ -46,6 +46,8 @@ var c03Alphabet = func() []buildOp {
 	add(0x8022, 5)
 	add(0x7FFF, 7)
 	add(0xFFFF, 8)
+	add(0x8028, 3) // FINGERPRINT-typed attributes that are not fingerprints (a foreign or damaged message carried on)
+	add(0x8028, 8)
 	for _, mc := range []struct {
 		m uint16
 		c uint8
@@ -105,7 +107,7 @@ var c03Alphabet = func() []buildOp {
 		// what Encode is for: the caller edits the attribute list, then re-encodes (only with two or more attributes,
 		// see the note on Encode and an emptied list in DESIGN 9.4)
 		buildOp{Name: "drop the first attribute; Encode", Do: func(m *stun.Message) {
-			if len(m.Attributes) >= 2 {
+			if len(m.Attributes) >= 1 {
 				m.Attributes = m.Attributes[1:]
 				m.Encode()
 			}
@@ -172,6 +174,32 @@ var c03Starts = func() []struct {
 			m := &stun.Message{Raw: exactSlice(raw, 0)}
 			if err := m.Decode(); err != nil {
 				panic("c03 start does not decode: " + err.Error())
+			}
+			return m
+		}})
+	}
+	// bytes of a sloppy peer that the decoder refuses today (last attribute without its padding, the header counting
+	// only what is there; a 5-byte FINGERPRINT-typed attribute is harmless but kept for the family): these are start
+	// states only for a library that accepts them - Make returns nil otherwise and the state is skipped
+	for _, sl := range [][]byte{
+		func() []byte {
+			r := ref.Encode(0x0001, tid, []ref.EncodeAttr{{Type: 0x0006, Value: []byte("abcd")}, {Type: 0x8022, Value: []byte("xyz12")}})
+			r = r[:len(r)-3]
+			r[2], r[3] = byte((len(r)-20)>>8), byte(len(r)-20)
+			return r
+		}(),
+		func() []byte {
+			r := ref.Encode(0x0101, tid, []ref.EncodeAttr{{Type: 0x0006, Value: []byte("a")}})
+			r = r[:len(r)-3]
+			r[2], r[3] = 0, byte(len(r)-20)
+			return r
+		}(),
+	} {
+		sl := sl
+		starts = append(starts, st{fmt.Sprintf("Decode(unpadded %x), if the library accepts it", sl), func() *stun.Message {
+			m := &stun.Message{Raw: exactSlice(sl, 0)}
+			if err := m.Decode(); err != nil {
+				return nil
 			}
 			return m
 		}})
@@ -364,6 +392,9 @@ func (k c03Case) describe() string {
 func c03Run(k c03Case) (key, detail string) {
 	p := catch(func() {
 		m := c03Starts[k.Start].Make()
+		if m == nil {
+			return // a start state that exists only for a library that decodes such bytes
+		}
 		trailing := k.Start >= c03TrailingFrom
 		if len(k.Ops) == 0 {
 			key, detail = c03CoherentT(m, trailing)
